@@ -242,16 +242,29 @@ def run(tier):
     canon_runs = 0
     canon_inputs = sorted(refs) if tier == "thorough" else [k for k in sorted(refs) if k != 13]
 
-    def canon(k):
-        rr = subprocess.run([exes.get("vgomp-asan") or build.build_harness("C02", "vgomp-asan", ["harness/C02_sched.c"]),
-                             "--mode", "canon", "--input", str(k), "--ref", refs[k]],
-                            stdout=subprocess.PIPE, stderr=subprocess.PIPE, text=True, env=c02env(), timeout=1200)
+    def canon(arg):
+        k, lo, hi = arg
+        cpu = cpus.get()        # pinned: the hand-off between strands is ten times faster when all of them share one CPU
+        try:
+            rr = subprocess.run(["taskset", "-c", str(cpu), exes.get("vgomp-asan") or build.build_harness("C02", "vgomp-asan", ["harness/C02_sched.c"]),
+                                 "--mode", "canon", "--input", str(k), "--ref", refs[k], "--nfrom", str(lo), "--nto", str(hi)],
+                                stdout=subprocess.PIPE, stderr=subprocess.PIPE, text=True, env=c02env(), timeout=1200)
+        finally:
+            cpus.put(cpu)
         return k, rr
 
     if "vgomp-asan" not in exes:
         exes["vgomp-asan"] = build.build_harness("C02", "vgomp-asan", ["harness/C02_sched.c"])
     with ThreadPoolExecutor(vp.NCPU) as ex:
-        for k, rr in ex.map(canon, canon_inputs):
+        # the 100+-sequence inputs are split into four ranges of N so that no single process holds the phase up
+        canon_work = []
+        for k in canon_inputs:
+            if k in KMS:
+                canon_work += [(k, 1, 16), (k, 17, 32), (k, 33, 48), (k, 49, 64)]
+            else:
+                canon_work.append((k, 1, 64))
+        canon_work.sort(key=lambda w: 0 if w[0] in KMS else 1)
+        for k, rr in ex.map(canon, canon_work):
             B, F, C, S = parse_sched(rr.stdout)
             canon_runs += S.get("canon_runs", 0)
             if rr.returncode != 0 and not F:
